@@ -1530,6 +1530,10 @@ fn m_subscribe(sh: &Rc<MShared>, k: usize) {
 }
 
 pub fn run_model(case: &Case, conv: Conv) -> Result<MResult, ModelErr> {
+  run_model_opt(case, conv, true)
+}
+
+pub fn run_model_opt(case: &Case, conv: Conv, sentinel: bool) -> Result<MResult, ModelErr> {
   let hots = case
     .hots
     .iter()
@@ -1596,8 +1600,10 @@ pub fn run_model(case: &Case, conv: Conv) -> Result<MResult, ModelErr> {
   // sentinel round
   let before: Vec<(bool, Option<Cause>)> =
     env.probes.borrow().iter().map(|p| (!p.obs.alive(), p.obs.0.cause.get())).collect();
-  for i in 0..case.hots.len() {
-    env.emit(i, &Ev::N(SENTINEL));
+  if sentinel {
+    for i in 0..case.hots.len() {
+      env.emit(i, &Ev::N(SENTINEL));
+    }
   }
   if let Some(e) = env.err.borrow().clone() {
     return Err(e);
